@@ -9,6 +9,12 @@ EMPHASIS = {
    * two cooperating code sites that each look fine alone,
    * a rarely used type / property / option combination, or a value class at a boundary (an exponent range, a particular digit pattern, a Unicode class, a list length, an ordering of dictionary keys),
    * a difference that only shows on ONE of several entry points / object forms / spec versions.""",
+ 4: """   * code that STIX 2.0 and 2.1 share (a table, a regular expression, a helper, a default): one version silently gets the other's rule, or a 2.1-only feature leaks into 2.0,
+   * sizes and shapes: long strings, many list elements, deep nesting, large or tiny numbers, empty-but-present containers, duplicate elements, ties when something is sorted,
+   * an exception handler made slightly narrower or wider, an error turned into a default value (or the reverse), a check moved before/after a conversion,
+   * default argument values, keyword-versus-positional confusion, an argument that is now mutated or retained, a generator or iterator that is consumed twice,
+   * copying, comparing, hashing, re-serializing or re-versioning objects that were themselves produced by the library (rather than written by hand),
+   * behaviour that differs between an object built by a constructor, the same object parsed from text, and the same content kept as a plain dict.""",
  3: """   * the INTERACTION of two features or options that are each exercised separately by the suite (an option combined with a nesting level, a flag combined with an object form, two optional properties that meet),
    * an entry point, argument form (positional vs keyword, object vs dict vs text vs file, single vs list) or object kind OTHER than the most common one,
    * what is left behind or returned after a REFUSAL / partial failure, or a refusal that silently turns into acceptance (or the reverse) for a narrow class of inputs,
